@@ -33,8 +33,9 @@ pub(super) fn generate_enum_definitions<'a, 'schema: 'a>(
             .variants
             .iter()
             .map(|v| {
-                let safe_name = super::shared::keyword_replace(v.as_str());
-                let name = normalization.enum_variant(safe_name.as_ref());
+                // Escape keywords after normalization: normalizing can turn an escaped name
+                // back into a keyword (`self_` would become `Self`).
+                let name = super::shared::keyword_replace(normalization.enum_variant(v.as_str()));
                 let name = Ident::new(&name, Span::call_site());
 
                 quote!(#name)
@@ -47,8 +48,7 @@ pub(super) fn generate_enum_definitions<'a, 'schema: 'a>(
             .variants
             .iter()
             .map(|v| {
-                let safe_name = super::shared::keyword_replace(v);
-                let name = normalization.enum_variant(safe_name.as_ref());
+                let name = super::shared::keyword_replace(normalization.enum_variant(v.as_str()));
                 let v = Ident::new(&name, Span::call_site());
 
                 quote!(#name_ident::#v)
